@@ -21,6 +21,11 @@ ASSUMPTIONS = [
     "the audit returned by Engine::process, with trading disabled (route engine) and with trading enabled, healthy "
     "execution links and a strategy that sends an order in every step (route algo)",
     "market events (priced, and such that leave the instrument without a price) are stutters for everything C02 names",
+    "size = net signed filled quantity whatever the instrument's kind and InstrumentSpec: the engine routes run on spot "
+    "(spec none / asset units / quote units), a perpetual (contracts, contract_size 0.01), a future and an option "
+    "(contracts, contract_size 10); fill quantities are in the units the venue reports, never rescaled",
+    "a stored and restored state (serde_json round trip of PositionManager / EngineState.instruments) is the same "
+    "state (Persist is a stutter); round trips happen at TLC-chosen and random points of the histories",
 ]
 
 
@@ -47,7 +52,8 @@ def check(ctx):
     # step - closed records are the PositionExit entries of the EMITTED audit
     for mode in ("pm", "state", "engine", "algo"):
         P.replay_results(ctx, "c02", "c02", p_x, len(scn_x), mode, "none", "exhaustive")
-        for scale in P.SCALES:
+        # the 10^+-6 magnitudes on the stand-alone manager and on the full engine path
+        for scale in (P.SCALES if mode in ("pm", "engine") else ("none",)):
             P.replay_results(ctx, "c02", "c02", p_f, len(scn_f), mode, scale, "random")
         if mode != "pm":
             P.replay_results(ctx, "c02", "c02", p_m, len(scn_m), mode, "none", "interleavings")
